@@ -475,7 +475,7 @@ var conformance = []ccase{
 
 	// ---------------------------------------------------------------- U. Written()
 	{"written_semantics", clkHdr + "reg [3:0] a, b, c; always @(posedge clk) begin a <= 4'd1; if (rst) b <= 4'd2; c = 4'd3; end endmodule",
-		"cycle clk;exp a 1;notwritten a;set clk 1;settle;written a;written c;notwritten b;set clk 0;settle;notwritten a;set rst 1;set clk 1;settle;written b;written a"},
+		"cycle clk;exp a 1;written a;written c;notwritten b;settle;notwritten a;set clk 1;settle;written a;written c;notwritten b;set clk 0;settle;notwritten a;set rst 1;set clk 1;settle;written b;written a"},
 	{"written_equal_value_counts", clkHdr + "reg [3:0] a; initial a = 1; always @(posedge clk) a <= 4'd1; endmodule",
 		"notwritten a;set clk 1;settle;written a;exp a 1"},
 	{"written_memory", clkHdr + "reg [3:0] m [0:1]; reg [3:0] o; always @(posedge clk) if (rst) m[0] <= 1; else o <= m[0]; endmodule",
@@ -517,6 +517,56 @@ var conformance = []ccase{
 	{"implicit_net_from_port_connection", "module sub(input a, output y); assign y = ~a; endmodule\nmodule t(input a, output z); sub u(a, imp); assign z = imp; endmodule", "set a 0;settle;exp z 1;exp imp 1"},
 	{"lfsr_pattern", clkHdr + "reg [7:0] l; wire fb; initial l = 8'd1; assign fb=(l[7]^(l[5]^(l[4] ^ l[3]))); always @ (posedge clk) begin if (rst) l <= 8'd1; else l <= {l[6:0],fb}; end endmodule",
 		"cycle clk;exp l 2;cycle clk;cycle clk;exp l 8;cycle clk;exp l 0x11"},
+
+	// ---------------------------------------------------------------- W. additional operator / typing traps
+	comb("mul_truncation", "reg [7:0] a = 8'hFF, b = 8'hFF; wire [7:0] y = a * b; wire [15:0] z = a * b;", "y=0x01 z=0xFE01"),
+	comb("div_mod_both_negative", "reg signed [7:0] a = -8, b = -3; wire [7:0] q = a / b; wire [7:0] r = a % b;", "q=2 r=0xFE"),
+	comb("precedence_add_over_shift", "wire [7:0] y = 8'd6 + 8'd2 >> 1;", "y=4"),
+	comb("precedence_not_over_equality", "reg a = 0, b = 1; wire y = !a == b;", "y=1"),
+	comb("precedence_equality_over_bitand", "wire [3:0] z = 4'b1100 & 4'b1010 == 4'b1010;", "z=0"),
+	comb("precedence_unary_over_power", "wire [7:0] w = -8'sd3 ** 2;", "w=9"),
+	comb("ternary_right_associative", "wire [3:0] y = 0 ? 1 : 1 ? 2 : 3;", "y=2"),
+	comb("reduction_of_expression", "reg [3:0] a = 4'b1100, b = 4'b0011; wire y = &(a | b); wire z = |(a & b);", "y=1 z=0"),
+	comb("invert_part_select_in_context", "reg [7:0] a = 8'hA5; wire [7:0] y = ~a[3:0]; wire z = |a[3:1];", "y=0xFA z=1"),
+	comb("dollar_signed_of_part_select", "reg [7:0] a = 8'h0F; wire [7:0] y = $signed(a[3:0]);", "y=0xFF"),
+	comb("integer_overflow_wraps", "integer i; initial i = 2147483647; wire y = i + 1 < 0;", "y=1"),
+	comb("x_literal_in_arithmetic", "wire [3:0] y = 4'b1x00 + 1;", "y=u"),
+	comb("localparam_takes_expression_width", "localparam X = 2'd3 + 2'd1; localparam Y = 2'd3 + 1; wire [7:0] x = X; wire [7:0] y = Y;", "x=0 y=4"),
+	comb("parameter_signed_range", "parameter signed [7:0] P = -1; wire [15:0] y = P; wire lt = P < 0; parameter [7:0] Q = -1; wire [15:0] z = Q; wire lq = Q < 0;", "y=0xFFFF lt=1 z=0x00FF lq=0"),
+	comb("signed_memory_word", "reg signed [7:0] m [0:1]; initial m[0] = -2; wire [15:0] y = m[0]; wire lt = m[0] < 0;", "y=0xFFFE lt=1"),
+	comb("replication_compare", "reg [1:0] a = 2'b11; wire y = {2{a}} == 4'hF;", "y=1"),
+	comb("equality_zero_extends_narrow_side", "wire y = 8'd255 == 9'd255; wire z = 8'hFF == 9'h1FF;", "y=1 z=0"),
+	comb("index_expression_is_self_determined", "reg [7:0] a = 8'h01; reg [2:0] i = 7; wire y = a[i + 1]; wire z = a[i + 1'b1];", "y=u z=1"),
+	comb("lifo_sp_minus_one_underflow", "reg [3:0] memory [7:0]; reg [3:0] sp = 0; initial memory[0] = 4'h9; wire [3:0] y = memory[sp-1]; reg [3:0] sp1 = 1; wire [3:0] z = memory[sp1-1];", "y=u z=9"),
+	comb("one_bit_addition", "reg a = 1, b = 1; wire [1:0] s = a + b; wire c = a + b;", "s=2 c=0"),
+	comb("dollar_signed_both_sides", "reg [9:0] a = 10'h3FF, b = 10'h001; wire y = $signed(a) > $signed(b); wire z = a > b;", "y=0 z=1"),
+	comb("exponent_unpack_pattern", "reg [31:0] a = 32'h00000000; wire [9:0] a_e = a[30 : 23] - 127; wire z = $signed(a_e) == -127;", "a_e=0x381 z=1"),
+	comb("time_variable_is_64_bit", "time tm; initial tm = 64'hFFFFFFFFFFFFFFFF; wire [63:0] y = tm + 1; wire [63:0] now = $time;", "y=0 now=0"),
+	comb("bitwise_on_signed_negative", "reg signed [3:0] a = -4; wire [7:0] y = a & 8'hFF; wire [7:0] z = a | 4'sd1;", "y=0x0C z=0xFD"),
+	comb("shift_result_feeds_signed_compare", "reg signed [7:0] a = -16; wire y = (a >>> 2) < 0; wire z = (a >> 2) < 0;", "y=1 z=0"),
+	comb("unary_reduction_vs_binary", "reg [3:0] a = 4'b0110, b = 4'b0101; wire [3:0] y = a & b; wire z = a && b; wire w = &a & &b; wire v = a ~^ b ? 1'b1 : 1'b0;", "y=4 z=1 w=0 v=1"),
+	comb("concat_with_sized_zero_extends_sum", "reg [7:0] r0 = 8'hF0, r1 = 8'h20; wire [8:0] s = {1'b0, r1} + {1'b0, r0};", "s=0x110"),
+	comb("nested_memory_index", "reg [1:0] tag [0:3]; reg [3:0] st = 4'b0100; reg [1:0] p = 1; initial tag[1] = 2; wire y = st[tag[p]]; wire z = st[tag[p]]==1'b1 ? 1'b1 : 1'b0;", "y=1 z=1"),
+	comb("compare_chain_is_left_assoc", "wire y = 3 > 2 > 1; wire z = 1 < 2 < 3;", "y=0 z=1"),
+	comb("modulo_by_power_of_two", "reg [7:0] a = 8'd77; wire [7:0] y = a % 8'd16; wire [7:0] z = a / 8'd16;", "y=13 z=4"),
+	{"negedge_clock_with_posedge_reset", "module t(input clk, input rst); reg [3:0] q; always @(negedge clk or posedge rst) if (rst) q <= 0; else q <= q + 1; endmodule",
+		"set rst 1;settle;exp q 0;set rst 0;settle;set clk 1;settle;exp q 0;set clk 0;settle;exp q 1"},
+	{"sync_reset_needs_clock", clkHdr + "reg [3:0] q; always @(posedge clk) if (rst) q <= 0; else q <= q + 1; endmodule",
+		"set rst 1;settle;expu q;cycle clk;exp q 0"},
+	{"process_runs_once_per_edge_even_with_two_triggers", "module t(input a, input b); reg [3:0] n; initial n = 0; always @(posedge a or posedge b) n <= n + 1; endmodule",
+		"set a 1;set b 1;settle;exp n 1;set a 0;set b 0;settle;exp n 1;set b 1;settle;exp n 2"},
+	{"comb_output_feeds_edge_process_same_settle", "module t(input clk, input [3:0] x); reg [3:0] q; wire [3:0] d; assign d = x + 1; always @(posedge clk) q <= d; endmodule",
+		"set x 4;cycle clk;exp q 5;set x 9;cycle clk;exp q 10"},
+	{"nba_to_memory_and_read_same_cycle", clkHdr + "reg [7:0] m [0:1]; reg [7:0] o; always @(posedge clk) if (rst) begin m[0] <= 8'h11; o <= 0; end else begin m[0] <= m[0] + 1; o <= m[0]; end endmodule",
+		"set rst 1;cycle clk;set rst 0;cycle clk;exp o 0x11;mem m 0 0x12;cycle clk;exp o 0x12"},
+	{"two_level_derived_clocks", clkHdr + "reg d1, d2; reg [3:0] n; initial begin d1 = 0; d2 = 0; n = 0; end always @(posedge clk) d1 <= ~d1; always @(posedge d1) d2 <= ~d2; always @(posedge d2) n <= n + 1; endmodule",
+		"cycle clk;exp d1 1;exp d2 1;exp n 1;cycle clk;cycle clk;exp d2 0;exp n 1;cycle clk;cycle clk;exp n 2"},
+	{"function_called_from_edge_process", clkHdr + "function [3:0] nxt; input [3:0] v; if (v == 4'd2) nxt = 0; else nxt = v + 1; endfunction\nreg [3:0] q; always @(posedge clk) if (rst) q <= 0; else q <= nxt(q); endmodule",
+		"set rst 1;cycle clk;set rst 0;cycle clk;exp q 1;cycle clk;exp q 2;cycle clk;exp q 0"},
+	{"param_override_changes_memory_depth", "module ram #(parameter AW = 2, DW = 4) (input clk, input [AW-1:0] a, input [DW-1:0] d, input we, output reg [DW-1:0] q); reg [DW-1:0] m [0:(1<<AW)-1]; always @(posedge clk) if (we) m[a] <= d; else q <= m[a]; endmodule\nmodule t(input clk, input [3:0] a, input [7:0] d, input we, output [7:0] q); ram #(.AW(4), .DW(8)) r(.clk(clk), .a(a), .d(d), .we(we), .q(q)); endmodule",
+		"set a 15;set d 0xAB;set we 1;cycle clk;set we 0;cycle clk;exp q 0xAB;mem r.m 15 0xAB"},
+	{"hierarchical_reference_read", "module sub(input clk, input [3:0] d); reg [3:0] q; always @(posedge clk) q <= d; endmodule\nmodule t(input clk, input [3:0] d, output [3:0] y, output z); sub u(clk, d); assign y = u.q; genvar i; generate for (i = 0; i < 2; i = i + 1) begin : g wire w = d[i]; end endgenerate assign z = g[1].w; endmodule",
+		"set d 0xA;cycle clk;exp y 0xA;exp z 1;exp u.q 0xA;exp g[0].w 0"},
 }
 
 func TestConformance(t *testing.T) {
